@@ -84,7 +84,7 @@ class C19(Check):
     rule = ('case = list of dicts (nested lists/dicts, 64-bit ints, finite floats, booleans, null inside objects, arbitrary Unicode strings incl. '
             'newlines and quotes) written by the real json.dump_to_file(compression in {None, gzip, zstd}) onto a simulated disk and read back by '
             'the real json.load_from_file through open_obj with a seeded short-read schedule (cuts inside multi-byte characters, inside the '
-            'gzip/zstd stream, at line ends; thorough: several 64 KiB read chunks with full-size reads); also json.dump() -> re-cut character '
+            'gzip/zstd stream, at line ends; thorough: several 64 KiB read chunks with full-size reads); a quarter of the file cases write two files at the same time from interleaved hot sources, 40% read the file back from inside the writer\'s completion callback; also json.dump() -> re-cut character '
             'stream -> line.unframe() -> json.load(). oracle: items equal (type-exact, floats by value and sign, key order) and in order. '
             'non-trivial: >= 2 items and >= 1 short read / cut inside the stream; distinct = distinct (items, configuration, schedule)')
     real = ['rxsci.container.json dump/load/dump_to_file/load_from_file, rxsci.io.file, rxsci.compression.z/zstd, rxsci.data.encode/decode, '
